@@ -53,6 +53,9 @@ def run_k(ctx, kres):
         def nocopy(t): return "\n".join(("nop" if l.startswith("copy ") else l) for l in t.split("\n"))
         prep = (lambda nm, t: nocopy(t) if (backend == "db" and nm != "objects") else t)
         traces = [Trace("%s-%s%d" % (variant, nm, i), prep(nm, mk(ctx.seed * 179424673 + i)), variant=variant, backend=backend) for nm, mk in S for i in range(n)]
+        # the rejected-template matrix of C09 (every class, every modifiable attribute in front of a rejected entry): the stores roll back differently (file: re-read; SQLite: transaction + cache)
+        from .. import gen2
+        traces.append(Trace("%s-prefix-matrix" % variant, nodump(gen2.c09_prefix_matrix(tables, ctx.seed, copies=(backend != "db"))), variant=variant, backend=backend))
         v += k_suite(ctx, kres, "K20-%s (%s)" % (variant, what), traces, lambda m: True, sig_of=lambda m, variant=variant: classify(variant, m), shrink_budget=20)
     return v
 
